@@ -8,7 +8,7 @@ KEY_C = "C05:chained-comparison-middle-operand-evaluated-twice"
 def run(ctx: Ctx) -> int:
     n = ctx.pick(60, 800)
     from lib import e4_corpus
-    nfixed = len([s for s in e4_corpus.C05_FIXED if not __import__("lib.e4_region", fromlist=["tags"]).tags(s)])
+    nfixed = len(e4_corpus.corpus("c05", n, ctx.seed)) - n       # fixed programs + array-flavoured generated ones, all outside the regions
     jobs = e4_check.jobs_for(ctx, "c05", n, batch=3, timeout=ctx.pick(240, 1200), total=n + nfixed)
     for region, key in (("hoist-order", KEY_H), ("chain-middle", KEY_C)):
         want = ctx.pick(6, 30)
@@ -17,7 +17,7 @@ def run(ctx: Ctx) -> int:
     ctx.functions_encoded = ["cfg/builder.py: ExprBuilder.generic_visit/visit_IfExp/visit_NamedExpr/visit_Call/visit_UnaryOp, BranchBuilder.visit_BoolOp/visit_Compare/visit_IfExp/visit_UnaryOp/"
                              "generic_visit, CFGBuilder statement visitors (where expressions are built relative to the statement)",
                              "the real check() decides which corpus programs are accepted (concretely)"]
-    ctx.bounds = {"programs": f"{n} generated (seed {ctx.seed}) + {nfixed} fixed effect-heavy programs outside the known-finding regions, plus probes inside each region",
+    ctx.bounds = {"programs": f"{n} generated (seed {ctx.seed}) + {nfixed} leading programs (fixed effect-heavy ones and {e4_corpus.n_array(n)} generated over an int array) outside the known-finding regions, plus probes inside each region",
                   "events": "calls of the opaque f g h (symbolic results), emit(v), panic(msg); compared as ordered lists of (callee, argument values)",
                   "inputs": "x in [-3, 4], y in [-1000, 1000], results of the first 8 opaque calls unbounded ints"}
     ctx.functions_encoded.append("stage 2: checker/expr_checker.py + stmt_checker.py + cfg_checker.py (operator -> dunder resolution incl. reflected forms, inserted coercions, for -> __iter__/__next__/Option protocol, "
